@@ -234,6 +234,35 @@ func jobC04(c *rt.Ctx) {
 			}
 		}
 	}
+	// (c') the same under LONG messages (16 KiB, 40000, 65536, 70000 bytes; pure and ctx): admissibility
+	// of S must not depend on how much there is to hash (checks reordered or skipped for long inputs)
+	c.Require("c/long-message")
+	for li, L := range []int{16384, 40000, 65536, 70000} {
+		for vi, vs := range []variantSpec{vPure, vCtx} {
+			for k := 0; k <= 15; k++ {
+				if !c.Thorough() && k > 2 && k != 15 && (li+vi+k)%4 != 0 {
+					continue
+				}
+				if !c.Take() {
+					continue
+				}
+				c.Class("c/long-message")
+				t := honestTriple(30+li, msgLen(L, li+vi), vs)
+				S := ref.LE(t.sig[32:])
+				S.Add(S, bmulL(int64(k)))
+				if S.BitLen() > 256 {
+					continue
+				}
+				copy(t.sig[32:], ref.ToLE(S, 32))
+				var shapes []batchShape
+				if k <= 1 {
+					shapes = []batchShape{{1, 4}}
+				}
+				c.DistinctB(true, []byte("c-long"), t.key, t.sig, []byte{byte(li), byte(vi)})
+				checkModes(c, "C04c honest+kL long-message", t, vs, shapes, map[string]interface{}{"k": k, "msg_len": L})
+			}
+		}
+	}
 	// (d) uniqueness: perturbations of S of accepted triples ------------------------------------
 	nacc := 2
 	if c.Thorough() {
